@@ -28,7 +28,10 @@ Accept(e) == IF e.a \in {"reset", "pre"} THEN TRUE
              ELSE IF e.a = "end" THEN ~e.aborted /\ e.leaked = 0
              \* no lost update: the statistics counters equal the number of completed writes / reads of that SSRC
              ELSE IF e.a = "stats" THEN e.skipped \/ (e.n = e.nums[1] /\ e.len = e.nums[2])
-             ELSE ~e.blocked /\ e.panic = ""
+             \* Close returns only after the goroutines of the chain have finished: none of them is still inside the (slow) RTCP
+             \* transport when it comes back - the first Close and every later one
+             \* (a Close inside a parallel role or a sequence hands its flag up to the enclosing event)
+             ELSE ~e.blocked /\ e.panic = "" /\ ("busy" \in DOMAIN e => ~e.busy)
 Step(e) == IF e.a = "reset" THEN <<>>
            ELSE IF e.a = "wire" /\ e.t = "rtp" /\ e.app /\ ~e.failed /\ ~e.pkt.p
                    /\ (e.pkt.seq \in 1000 .. 1060 \/ e.pkt.seq \in 30000 .. 30010)    \* the numbers the programs ask to be retransmitted
